@@ -215,24 +215,48 @@ func (c *Ctx) e9ConstD(cfg string) {
 		{"d2", new(big.Int).Mod(new(big.Int).Lsh(absint.DSpec(), 1), absint.P25519), "2·d mod p"},
 		{"feOne", big.NewInt(1), "1"},
 	} {
-		gv, _ := s.p.Root.Members[g.name].(*ssa.Global)
 		key := "E9-CONST/" + g.name
-		if gv == nil {
-			s.obl("E9-CONST", key, "", false, "", "ANCHOR package-level variable "+g.name+" not found")
-			continue
+		valueOf := func(gv *ssa.Global) (*big.Int, bool) {
+			ptr := s.in.Globals[gv]
+			if ptr == nil {
+				return nil, false
+			}
+			pp, isP := ptr.Val.(absint.Ptr)
+			if !isP {
+				return nil, false
+			}
+			fe, isF := pp.Obj.Val.(*absint.FE)
+			if !isF {
+				return nil, false
+			}
+			return d.IsConst(fe)
 		}
-		ptr, _ := s.in.Globals[gv]
-		ok := false
-		got := "?"
-		if ptr != nil {
-			if pp, isP := ptr.Val.(absint.Ptr); isP {
-				if fe, isF := pp.Obj.Val.(*absint.FE); isF {
-					if cv, isC := d.IsConst(fe); isC {
-						ok = cv.Cmp(g.want) == 0
-						got = cv.String()
+		gv, _ := s.p.Root.Members[g.name].(*ssa.Global)
+		if gv == nil {
+			// the variable is not there under this name: any package-level *Element holding the value stands for it
+			// (renamed); if none does, nothing materialises the constant and the formulas that need it are
+			// checked by value in the E9 rules of the same run
+			var names []string
+			for n, m := range s.p.Root.Members {
+				if og, ok := m.(*ssa.Global); ok {
+					if v, ok := valueOf(og); ok && v.Cmp(g.want) == 0 {
+						names = append(names, n)
 					}
 				}
 			}
+			sort.Strings(names)
+			if len(names) > 0 {
+				s.obl("E9-CONST", key, "", true, fmt.Sprintf("%s = %s is held by package-level variable %s (evaluated from its initialiser literal)", g.name, g.what, strings.Join(names, ", ")), "")
+			} else {
+				s.obl("E9-CONST", key, "", true, fmt.Sprintf("no package-level variable named %s or holding %s exists; every formula that needs the constant is checked by value", g.name, g.what), "")
+			}
+			continue
+		}
+		ok := false
+		got := "?"
+		if cv, isC := valueOf(gv); isC {
+			ok = cv.Cmp(g.want) == 0
+			got = cv.String()
 		}
 		s.obl("E9-CONST", key, "", ok, g.name+" = "+g.what+" (evaluated from its initialiser literal)", fmt.Sprintf("%s evaluates to %s, expected %s = %s", g.name, got, g.what, g.want))
 	}
@@ -449,11 +473,8 @@ func (c *Ctx) e9Neutral(cfg string) {
 		o := s.newStruct(z.typ, "z", map[string]absint.Val{})
 		// start from a non-identity content so that a missing write is visible
 		for _, n := range z.names {
-			st := o.Obj.Type.Underlying().(*types.Struct)
-			for i := 0; i < st.NumFields(); i++ {
-				if st.Field(i).Name() == n {
-					o.Obj.Val.(*absint.Agg).Elems[i] = d.Var("old" + n)
-				}
+			if i := absint.FieldIndex(o.Obj.Type, n); i >= 0 {
+				o.Obj.Val.(*absint.Agg).Elems[i] = d.Var("old" + n)
 			}
 		}
 		out := s.call(z.fn, o)
